@@ -44,9 +44,9 @@ pub fn gen(rng: &mut Rng, tiny: bool, focus: &str) -> CCfg {
         (false, true) => 2,
         (false, false) => 3,
     };
-    let cap = if tiny { *rng.pick(&[1usize, 2]) } else { *rng.pick(&[1usize, 2, 3, 5, 16]) };
+    let cap = if tiny { *rng.pick(&[1usize, 2]) } else if rng.chance(1, 120) { *rng.pick(&[1500usize, 4096]) } else { *rng.pick(&[1usize, 2, 3, 5, 16]) };
     let n_prod = if tiny { rng.range(1, 2) } else { rng.range(1, 4) } as usize;
-    let total = if tiny { cap + 1 + rng.below(2) as usize } else { rng.range(cap as u64 + 1, 3 * cap as u64 + 3) as usize };
+    let total = if tiny { cap + 1 + rng.below(2) as usize } else if cap > 1000 { cap + 1 + rng.below(40) as usize } else { rng.range(cap as u64 + 1, 3 * cap as u64 + 3) as usize };
     let per_prod = (total + n_prod - 1) / n_prod;
     let policy = if c05 { POL_BLOCK } else { rng.range(1, 2) as u8 };
     let n_ep = if c05 { 3 } else { 3 };
